@@ -6,6 +6,9 @@ use crate::macsuites::*;
 use crate::util::*;
 
 pub fn eval(op: &str) -> String {
+    if op.split_whitespace().nth(1) == Some("adev") {
+        return crate::adevgen::eval(op, crate::adevgen::oracle_c06_dev);
+    }
     let outs = run_history(op);
     format!("{} ## oracle={}", outs.join(" ; "), oracle_c06(op, &outs))
 }
@@ -36,5 +39,19 @@ pub fn run(tier: &str, seed: u64, dir: &str) {
             sink.case(&op, &eval(&op), "counter-history", true);
         }
     }
-    sink.finish(dir, "MAC histories (send / RX1 hit / RX2 hit / timeout / rejected and oversized frames / Class C downlinks / re-joins) from starting counters 0, 0xFFFE, 0xFFFF, 2^32-5, 2^32-2; every transmitted frame is decoded by the network side with the full 32-bit counter (MIC and decryption must succeed for it). Non-trivial = every case.", false, serde_json::json!({}));
+    // device level (async front-end): a radio fault at every radio call position
+    for region in ["EU868", "US915", "AS923_1"] {
+        for class_c in [false, true] {
+            let mut v = vec![];
+            crate::adevgen::gen_fault_histories("C06", region, &mut rng, class_c, &mut v);
+            for (op, class) in v {
+                sink.case(&op, &eval(&op), class, true);
+            }
+        }
+        for _ in 0..(if thorough { 1500 } else { 120 }) {
+            let op = crate::adevgen::gen_random_dev_history("C06", region, &mut rng);
+            sink.case(&op, &eval(&op), "device-random", true);
+        }
+    }
+    sink.finish(dir, "device level: the real async Device with a scripted radio: two-uplink histories with a radio fault injected at every radio call index (tx, low_power, setup_rx, rx_single, rx_continuous) x frames in RX1/RX2/garbage x Class A/C, and random scripted histories. MAC level: MAC histories (send / RX1 hit / RX2 hit / timeout / rejected and oversized frames / Class C downlinks / re-joins) from starting counters 0, 0xFFFE, 0xFFFF, 2^32-5, 2^32-2; every transmitted frame is decoded by the network side with the full 32-bit counter (MIC and decryption must succeed for it). Non-trivial = every case.", false, serde_json::json!({}));
 }
